@@ -684,6 +684,23 @@ class _Expr(ast.NodeTransformer):
             return ast.BoolOp(op=ast.And(), values=parts)
         return n
 
+    _EAGER_CONSUMERS = {'max', 'min', 'sum', 'sorted', 'set', 'frozenset', 'list', 'tuple', 'dict', 'Counter'}
+    _EAGER_METHODS = {'join', 'extend', 'update'}
+
+    def visit_Call(self, n):
+        self.generic_visit(n)
+        # f([e for ...]) == f((e for ...)) for a consumer that reads its whole argument; any / all only when the elements are pure
+        f = n.func
+        nm = f.id if isinstance(f, ast.Name) else (f.attr if isinstance(f, ast.Attribute) else None)
+        if n.args and isinstance(n.args[0], ast.ListComp) and not any(isinstance(a, ast.Starred) for a in n.args):
+            lc = n.args[0]
+            eager = (isinstance(f, ast.Name) and nm in self._EAGER_CONSUMERS) or (isinstance(f, ast.Attribute) and nm in self._EAGER_METHODS)
+            lazy_ok = isinstance(f, ast.Name) and nm in ('any', 'all') and _pure(lc.elt, False) and \
+                all(_pure(g.iter, False) and all(_pure(c, False) for c in g.ifs) for g in lc.generators)
+            if (eager or lazy_ok) and (len(n.args) == 1 or nm in ('max', 'min', 'sum', 'sorted')):
+                n.args[0] = ast.GeneratorExp(elt=lc.elt, generators=lc.generators)
+        return n
+
     def visit_If(self, n):
         self.generic_visit(n)
         n.test = nnf(n.test)
